@@ -119,3 +119,29 @@ impl Copy for Instruction {}
 pub fn rt_panic() -> !
     requires false
 { panic!() }
+
+// ---- compile_primitive's short-circuit blocks (compiler.rs)
+#[verifier::external_body] pub struct Expr { _p: () }
+pub uninterp spec fn expr_id(e: Expr) -> int;
+#[verifier::external_body] pub struct CErr { _p: () }
+// the recursive compiler, opaque; a ghost log records every sub-expression compiled and with which tail flag
+#[verifier::external_body] pub struct Compiler { _p: () }
+impl Compiler {
+    pub uninterp spec fn log(&self) -> Seq<(int, bool)>;
+    // ASSUMED contract of Compiler::compile on a sub-expression: appends code only (everything emitted before stays),
+    // leaves exactly one more value on the static stack, keeps the accounting invariant, and functions stay far below
+    // 2^31 instructions / 2^31 slots
+    #[verifier::external_body]
+    pub fn compile(&mut self, e: &Expr, function: &mut FunctionEnv, tail_position: bool) -> (r: Result<(), CErr>)
+        requires old(function).wf()
+        ensures
+            final(self).log() == old(self).log().push((expr_id(*e), tail_position)),
+            r is Ok ==> final(function).wf()
+                && final(function).function.instructions@.len() >= old(function).function.instructions@.len()
+                && final(function).function.instructions@.take(old(function).function.instructions@.len() as int) == old(function).function.instructions@
+                && final(function).stack_size == old(function).stack_size + 1
+                && final(function).function.max_stack_size >= old(function).function.max_stack_size
+                && final(function).function.instructions@.len() < 0x4000_0000
+                && final(function).stack_size < 0x4000_0000,
+    { unimplemented!() }
+}
